@@ -358,6 +358,17 @@ structure ExtState where
   theorems : List (String × Seq)
   axioms : List (String × Seq)
 
+/-- `thy.theorems[name] = th` (`add_theorem`): a dict assignment, an existing name is overwritten
+in place. -/
+def upsert (name : String) (th : Seq) : List (String × Seq) → List (String × Seq)
+  | [] => [(name, th)]
+  | (n, t) :: rest => if n = name then (n, th) :: rest else (n, t) :: upsert name th rest
+
+/-- `thy.theorems[name]`. -/
+def lookupThm : List (String × Seq) → String → Option Seq
+  | [], _ => none
+  | (n, t) :: rest, name => if n = name then some t else lookupThm rest name
+
 /-- `Theory.checked_extend(exts)`; the rule layer depends on the theorems installed so far.
 On an exception the Python leaves the earlier extensions installed; the model returns the error
 together with the state reached. -/
@@ -366,7 +377,7 @@ def checkedExtend (R : List (String × Seq) → Rules) (fuel : Nat) :
   | st, [] => (st, none)
   | st, .other :: rest => checkedExtend R fuel st rest
   | st, .theorem name th none :: rest =>
-    checkedExtend R fuel ⟨st.theorems ++ [(name, th)], st.axioms ++ [(name, th)]⟩ rest
+    checkedExtend R fuel ⟨upsert name th st.theorems, st.axioms ++ [(name, th)]⟩ rest
   | st, .theorem name th (some prf) :: rest =>
     match checkProof (R st.theorems) ⟨true, false, 0⟩ fuel prf with
     | .error e => (st, some e)
@@ -374,7 +385,7 @@ def checkedExtend (R : List (String × Seq) → Rules) (fuel : Nat) :
       match res.th with
       | none => (st, some (.check .notConclude))
       | some r =>
-        if canProve r th then checkedExtend R fuel ⟨st.theorems ++ [(name, th)], st.axioms⟩ rest
+        if canProve r th then checkedExtend R fuel ⟨upsert name th st.theorems, st.axioms⟩ rest
         else (st, some (.check .notConclude))
 
 end Holpy.C02
